@@ -388,6 +388,42 @@ def checkC17 (_c : Case) (t : Transcript) : Option String := Id.run do
         return some s!"non-acquiring operation changed the caller's holds from {repr before} to {repr st.held}"
   return none
 
+mutual
+/-- the lockable units reachable through a shape, independently of addresses: leaf locks and
+owned collections (which present themselves as one unit) -/
+def unitIds : Shape → List (Bool × Nat)
+  | .mutex x => [(false, x)]
+  | .rwlock x => [(false, x)]
+  | .seq ss => unitIdsL ss
+  | .poisonable _ s => unitIds s
+  | .boxed s => unitIds s
+  | .refc s => unitIds s
+  | .retry s => unitIds s
+  | .owned a _ => [(true, a)]
+def unitIdsL : List Shape → List (Bool × Nat)
+  | [] => []
+  | s :: ss => unitIds s ++ unitIdsL ss
+end
+
+/-- C07: a checked constructor returns `None` exactly if some unit is reachable twice. -/
+def checkC07 (c : Case) (t : Transcript) : Option String := Id.run do
+  let segs := segments t.evs
+  let mut i := 0
+  for s in c.prog do
+    let seg := segs.getD i []
+    i := i + 1
+    match s with
+    | .tryNew _ sh =>
+      let ids := unitIds sh
+      let dupFree := ids.all fun k => ids.count k == 1
+      let accepted := segOutcome seg == mkOutOk
+      if accepted != dupFree then
+        return some s!"statement {i}: try_new returned {if accepted then "Some" else "None"} for a {if dupFree then "duplicate-free" else "duplicate-containing"} input"
+      if seg.any fun e => match e with | .raw .. => true | _ => false then
+        return some s!"statement {i}: try_new touched a raw lock"
+    | _ => pure ()
+  return none
+
 /-- C06: replay the key-token specification over the statements and their observed outcomes:
 `ThreadKey::get` must return a key iff no token is alive (owned by the program, inside a guard
 or running call, or leaked), never inside a hold, and the final flag must agree. -/
@@ -450,6 +486,7 @@ def checkProp (prop : String) (c : Case) (t : Transcript) : Option String :=
   | "C03" | "C05" => checkHold c t
   | "C04" => (checkC04 c t).orElse fun _ => checkHold c t
   | "C06" => checkC06 c t
+  | "C07" => checkC07 c t
   | "C08" => checkC08 c t
   | "C09" => checkC09 c t
   | "C11" => (checkC11 c t).orElse fun _ => checkHold c t
